@@ -107,3 +107,11 @@ Proof.
   exact (indexer_exists_iff_a_sparse_state vi0 period is_last_period).
 Qed.
 Print Assumptions C17_code_space_glue.
+
+(* ---- the regenerated array programs (Gen/IndexersGen.v) ARE the model the theorems above are about - *)
+From LCM Require Import Gen.IndexersGen Proofs.C17_IndexersGen.
+Theorem C17_code_array_programs_are_the_model : forall (mask : arr bool) (n : nat) (grids : list (list Q)),
+  gen_create_indexers_and_segments mask n = create_indexers_and_segments mask n /\
+  gen_create_combination_grid grids mask = combination_grid grids mask.
+Proof. intros. split; [apply gen_create_indexers_and_segments_is_model|apply gen_create_combination_grid_is_model]. Qed.
+Print Assumptions C17_code_array_programs_are_the_model.
